@@ -30,6 +30,7 @@ struct Scenario {
     entries: Vec<(String, i64)>,
     path: Vec<String>,
     second: Vec<(String, i64)>, // entries of a second configuration captured into the same Props afterwards
+    preset: Option<(String, i64)>, // a property the module wrote (typed, i64) before any configuration arrived
 }
 
 fn gen(r: &mut Rng) -> Scenario {
@@ -40,7 +41,7 @@ fn gen(r: &mut Rng) -> Scenario {
         for e in 0..n {
             // most entries are derived from the module's path: same depth or off by one, single segments replaced by a
             // sibling name (often one that shares a prefix), by <any>, or kept
-            let d = match r.below(6) { 0 => depth.saturating_sub(1), 1 => depth + 1, _ => depth };
+            let d = match r.below(7) { 0 => depth.saturating_sub(1), 1 => depth + 1, 2 => depth + 2, _ => depth };
             let mut segs: Vec<String> = Vec::new();
             for j in 0..d {
                 let s = match r.below(8) {
@@ -62,7 +63,8 @@ fn gen(r: &mut Rng) -> Scenario {
     let n = 1 + r.below(7) as usize;
     let entries = mk(r, n, 100);
     let second = if r.below(3) == 0 { let n = 1 + r.below(4) as usize; mk(r, n, 200) } else { Vec::new() };
-    Scenario { entries, path, second }
+    let preset = if r.below(5) == 0 { Some((PROPS[r.below(PROPS.len() as u64) as usize].to_string(), 7 + r.below(3) as i64)) } else { None };
+    Scenario { entries, path, second, preset }
 }
 
 fn to_value(entries: &[(String, i64)]) -> Value {
@@ -102,17 +104,25 @@ fn esc(s: &str) -> String {
 
 fn scen_json(s: &Scenario) -> String {
     let e = |v: &Vec<(String, i64)>| v.iter().map(|(k, x)| format!("[\"{}\",{}]", esc(k), x)).collect::<Vec<_>>().join(",");
-    format!("{{\"path\":[{}],\"entries\":[{}],\"second\":[{}]}}", s.path.iter().map(|p| format!("\"{}\"", esc(p))).collect::<Vec<_>>().join(","), e(&s.entries), e(&s.second))
+    let pre = match &s.preset { Some((k, v)) => format!("[[\"{}\",{}]]", esc(k), v), None => "[]".to_string() };
+    format!("{{\"path\":[{}],\"entries\":[{}],\"second\":[{}],\"preset\":{}}}", s.path.iter().map(|p| format!("\"{}\"", esc(p))).collect::<Vec<_>>().join(","), e(&s.entries), e(&s.second), pre)
 }
 
 fn run(s: &Scenario) -> Result<(), (String, String, String)> {
     let path: Vec<&str> = s.path.iter().map(|p| p.as_str()).collect();
     let got = catch_unwind(AssertUnwindSafe(|| {
         let mut props = Props::default();
+        if let Some((k, v)) = &s.preset {
+            props.get::<i64>(k).expect("fresh property").or(*v);
+        }
         Cfg::new(to_value(&s.entries)).capture_for(&path, &mut props);
         if !s.second.is_empty() {
             Cfg::new(to_value(&s.second)).capture_for(&path, &mut props);
         }
+        let retyped = match &s.preset {
+            Some((k, _)) => props.get::<String>(k).is_ok(),
+            None => false,
+        };
         let mut keys = props.keys();
         keys.sort();
         let mut out: Vec<(String, Option<i64>)> = Vec::new();
@@ -120,15 +130,23 @@ fn run(s: &Scenario) -> Result<(), (String, String, String)> {
             let v = props.get_raw(&k).as_value().and_then(|v| v.as_i64());
             out.push((k, v));
         }
-        out
+        (out, retyped)
     }));
-    let got = match got {
+    let (got, retyped) = match got {
         Ok(g) => g,
         Err(_) => return Err(("capture-panicked".into(), "Cfg::capture_for returns for every configuration and path".into(), "panic".into())),
     };
     let mut all = s.entries.clone();
     all.extend(s.second.iter().cloned());
-    let want = reference(&all, &s.path);
+    let mut want = reference(&all, &s.path);
+    if let Some((k, v)) = &s.preset {
+        // written first, with a type: the configuration neither replaces the value nor changes the type
+        want.retain(|(n, _)| n != k);
+        want.push((k.clone(), vec![*v]));
+        if retyped {
+            return Err(("typed-property-reinterpreted".into(), format!("`{}` was written as i64: reading it as String is an error", k), "Ok".into()));
+        }
+    }
     for (name, v) in &got {
         match want.iter().find(|(n, _)| n == name) {
             None => return Err(("foreign-entry-delivered".into(), format!("no property `{}` (no entry addresses this module with that name)", name), format!("`{}` = {:?}", name, v))),
@@ -191,7 +209,8 @@ fn main() {
     if a.len() >= 3 && a[1] == "replay" {
         let j = &a[2];
         let path: Vec<String> = field(j, "path").trim_matches(|c| c == '[' || c == ']').split(',').filter(|s| !s.is_empty()).map(|s| s.trim().trim_matches('"').to_string()).collect();
-        let s = Scenario { path, entries: parse_list(field(j, "entries")), second: parse_list(field(j, "second")) };
+        let preset = if j.contains("\"preset\":[") { parse_list(field(j, "preset")).into_iter().next() } else { None };
+        let s = Scenario { path, entries: parse_list(field(j, "entries")), second: parse_list(field(j, "second")), preset };
         match run(&s) {
             Ok(()) => println!("{{\"mismatch\":false}}"),
             Err((k, e, o)) => println!("{{\"mismatch\":true,\"kind\":\"{}\",\"expected\":\"{}\",\"observed\":\"{}\"}}", k, esc(&e), esc(&o)),
